@@ -71,6 +71,7 @@ def strategy_impl(draw, tier):
         # or both kinds
         case["user_coords"] = draw(st.sampled_from(["same", "subset", "disjoint", "overlap+new"]))
         case["user_axis"] = draw(st.sampled_from(["W", "Z2", "depth", "k"]))
+    case["shift_spelling"] = draw(st.sampled_from(["float", "float", "str", "list", "arr", "f32"]))
     case["op"] = draw(st.sampled_from(["diff", "interp", "cumsum"]))
     case["boundary"] = draw(st.sampled_from(M.RULES))
     return case
@@ -93,12 +94,17 @@ def build_ds(case):
             attrs = {}
             if case["conv"].startswith("comodo"):
                 attrs["axis"] = a["name"]
+                from vfw.scenario import spell_number
+
+                how = case.get("shift_spelling", "float")
+                if how in ("list", "arr") and p in ("left", "right"):
+                    how = "str"   # a sequence carries no usable number: only where the length decides (inner / outer)
                 if p == "left":
-                    attrs["c_grid_axis_shift"] = -0.5
+                    attrs["c_grid_axis_shift"] = spell_number(-0.5, how)
                 elif p == "right":
-                    attrs["c_grid_axis_shift"] = 0.5
+                    attrs["c_grid_axis_shift"] = spell_number(0.5, how)
                 elif p in ("inner", "outer"):
-                    attrs["c_grid_axis_shift"] = a["signs"][p]
+                    attrs["c_grid_axis_shift"] = spell_number(a["signs"][p], how)
             elif case.get("comodo_decoy"):
                 attrs["axis"] = "Q" + d
             coords[d] = xr.DataArray(np.arange(L) * 1.0, dims=[d], attrs=attrs)
@@ -165,7 +171,11 @@ def check(case, ctx):
         raise Violation("user-supplied coords together with parsed metadata were accepted instead of rejected", conv=conv, user_coords=user,
                         axes={n: dict(a.coords) for n, a in g.axes.items()})
 
+    before = {str(k): repr(dict(v.attrs)) for k, v in ds.variables.items()}
     grid = must_return("Grid(ds) autoparse", Grid, ds, periodic=False, boundary=case["boundary"])
+    after = {str(k): repr(dict(v.attrs)) for k, v in ds.variables.items()}
+    if before != after:
+        raise Violation("autoparsing rewrote attributes of the caller's dataset", changed={k: [before[k], after.get(k)] for k in before if before[k] != after.get(k)})
     got = {name: dict(ax.coords) for name, ax in grid.axes.items()}
     if got != exp:
         raise Violation("autoparsed axes / position-to-dimension assignment differ from the convention's table", got=got, expected=exp,
